@@ -300,6 +300,62 @@ def bounded(b):
             if any(abs(g - w) > 1e-9 for g, w in zip(got, want)):
                 bad = bad or "after the edit (beat, quarter, inverse of beat) at t=%d are %r, the edited part means %r" % (t, got, want)
         b.case("maps/follow_the_part_as_it_is_now", bad is None, case, bad or "")
+    # an edit made on a part, compared with a part that was BUILT in the edited state (the expected values never see the edited part)
+    def rebar_base(measures, sigs=((0, 6, 8),), end=38):
+        p = sc.Part("P", quarter_duration=4)
+        for t, bts, bt in sigs:
+            p.add(sc.TimeSignature(bts, bt), t)
+        p.add(sc.Note("C", 4, id="n0", voice=1), 0, end)
+        for k, (s, e) in enumerate(measures):
+            p.add(sc.Measure(number=k + 1), s, e)
+        return p
+
+    def rebar_through_the_points(p):
+        # the bars taken out through the time points they stand on (as the slur / tuplet setters and the MusicXML reader do), an upbeat bar put in
+        for m in list(p.iter_all(sc.Measure)):
+            m.start.remove_starting_object(m)
+            m.end.remove_ending_object(m)
+        for k, (s, e) in enumerate(((0, 2), (2, 14), (14, 26), (26, 38))):
+            p.add(sc.Measure(number=k), s, e)
+
+    def signature_taken_out_through_its_point(p):
+        ts = [t for t in p.iter_all(sc.TimeSignature) if t.start.t == 14][0]
+        ts.start.remove_starting_object(ts)
+
+    def same_signature_entered_twice(p):
+        # (as a reader does that meets the signature once per staff) - whichever of the two counts, 6/8 is in force from t=24
+        p.add(sc.TimeSignature(6, 8), 24)
+        p.add(sc.TimeSignature(6, 8), 24)
+    for ename, base, edit, direct in (
+            ("bars_removed_through_their_time_points_and_an_upbeat_bar_added", lambda: rebar_base(((0, 12), (12, 24), (24, 36))), rebar_through_the_points,
+             lambda: rebar_base(((0, 2), (2, 14), (14, 26), (26, 38)))),
+            ("a_signature_removed_through_its_time_point", lambda: rebar_base(((0, 2), (2, 14), (14, 26), (26, 38)), sigs=((0, 6, 8), (14, 3, 4))), signature_taken_out_through_its_point,
+             lambda: rebar_base(((0, 2), (2, 14), (14, 26), (26, 38)))),
+            ("the_same_signature_entered_twice_inside_a_bar", lambda: rebar_base(((0, 16), (16, 32), (32, 48)), sigs=((0, 4, 4),), end=48), same_signature_entered_twice,
+             lambda: rebar_base(((0, 16), (16, 32), (32, 48)), sigs=((0, 4, 4), (24, 6, 8)), end=48))):
+        for mus in (False, True):
+            case = {"edit_compared_with_a_part_built_in_that_state": ename, "musical_beats": mus}
+            def run():
+                p, d = base(), direct()
+                if mus:
+                    p.use_musical_beat()
+                    d.use_musical_beat()
+                _ = [float(p.beat_map(t)) for t in (0, 5)]
+                edit(p)
+                return p, d
+            ok, res = b.guard("maps/no_exception", case, run)
+            if not ok:
+                continue
+            p, d = res
+            bad = None
+            okq, vals = b.guard("maps/no_exception", case, lambda: [(float(p.beat_map(t)), float(p.quarter_map(t)), float(p.inv_beat_map(p.beat_map(t))), float(p.inv_quarter_map(p.quarter_map(t)))) for t in range(0, p.last_point.t + 1)])
+            if not okq:
+                continue
+            for t, got in enumerate(vals):
+                want = (float(O.beat_pos(d, t, mus)), float(O.quarter_pos(d, t)), float(t), float(t))
+                if any(abs(g - w) > 1e-9 for g, w in zip(got, want)):
+                    bad = bad or "after the edit (beat, quarter, inverse of beat, inverse of quarter) at t=%d are %r, a part built in that state means %r" % (t, got, want)
+            b.case("maps/follow_the_part_as_it_is_now", bad is None, case, bad or "")
     # multi-step beat-mode sequences (user beats -> notated -> default)
     for seq in ([("m", {"5/8": 2}), ("n", None), ("m", {})], [("m", {"3/4": 1}), ("n", None), ("m", {}), ("n", None)], [("s", {"6/8": 3}), ("s", {})]):
         p = sc.Part("P", quarter_duration=2)
